@@ -1163,4 +1163,3 @@ func ParamsFor(prop string, seed int64, tier string, commands []string) Params {
 	}
 	return p
 }
-
